@@ -170,6 +170,16 @@ func vAssert(cond bool, id string) {
 
 func vFail(id string) {
 	vMu.Lock()
+	if len(vKnownSet) > 0 {
+		// inside the region of a known finding: reported separately, not a failure of the run
+		ids := ""
+		for k := range vKnownSet {
+			ids += k + " "
+		}
+		vMu.Unlock()
+		fmt.Printf("VERIF-KNOWN %s: %s\n", ids, id)
+		panic(vStop{id: "known"})
+	}
 	vFailed = append(vFailed, id)
 	vMu.Unlock()
 	fmt.Printf("VERIF-ASSERT-FAILED %s\n", id)
